@@ -18,7 +18,9 @@
 //	              precede the first successful one;
 //	read-only     ReadValue calls with no poll of that detector between them agree;
 //	non-blocking  a ReadValue spans at most one polling interval, counted in quarter-interval ticks of a harness
-//	              metronome and calibrated against concurrent sentinel sleeps of exactly one interval.
+//	              metronome (longest run of regular ticks) and calibrated against concurrent sentinel sleeps of exactly
+//	              one interval; the same counting checks that detectors keep polling and that polls end within their
+//	              timeout. These three are confirmed by re-running the scenario before they are reported.
 package main
 
 import (
@@ -279,6 +281,14 @@ func childMain() {
 	installHooks()
 	for i := range scs {
 		evs, problem := runScenario(scs[i])
+		if problem == "hung" {
+			// a polling loop is stuck; its history is complete enough for the oracle, but this process is not
+			// clean any more: stop here, the parent runs the remaining scenarios in a fresh child
+			_ = enc.Encode(resultLine{Kind: "scenario", Scenario: &scs[i], Events: evs})
+			w.Flush()
+			f.Close()
+			os.Exit(0)
+		}
 		_ = enc.Encode(resultLine{Kind: "scenario", Scenario: &scs[i], Events: evs, Problem: problem})
 		w.Flush()
 	}
@@ -298,29 +308,58 @@ type scResult struct {
 	race     bool
 }
 
-func runBatch(dir string, n int, scs []Scenario, race bool) (res []scResult, childNote string, raceLogs []string) {
-	spec := filepath.Join(dir, fmt.Sprintf("batch-%d.json", n))
-	outp := filepath.Join(dir, fmt.Sprintf("batch-%d.out.jsonl", n))
+func runBatch(dir string, n int, scs []Scenario, race bool, extraEnv ...string) (res []scResult, childNote string, raceLogs []string) {
+	remaining := scs
+	for round := 0; len(remaining) > 0 && round < 4; round++ {
+		r, note, logs, ended := runBatchOnce(dir, n, round, remaining, race, extraEnv)
+		raceLogs = append(raceLogs, logs...)
+		if note != "" {
+			childNote += note + " "
+		}
+		done := map[int]bool{}
+		for _, x := range r {
+			done[x.sc.ID] = true
+		}
+		res = append(res, r...)
+		var rest []Scenario
+		for _, sc := range remaining {
+			if !done[sc.ID] {
+				rest = append(rest, sc)
+			}
+		}
+		if ended || len(r) == 0 {
+			remaining = rest
+			break
+		}
+		remaining = rest
+	}
+	for _, sc := range remaining {
+		res = append(res, scResult{sc: sc, complete: false, problem: "child did not finish this scenario", race: race})
+	}
+	return
+}
+
+func runBatchOnce(dir string, n, round int, scs []Scenario, race bool, extraEnv []string) (res []scResult, childNote string, raceLogs []string, ended bool) {
+	spec := filepath.Join(dir, fmt.Sprintf("batch-%d-%d.json", n, round))
+	outp := filepath.Join(dir, fmt.Sprintf("batch-%d-%d.out.jsonl", n, round))
 	buf, _ := json.Marshal(scs)
 	if err := os.WriteFile(spec, buf, 0o644); err != nil {
 		panic(err)
 	}
 	exe := ""
-	var env []string
-	watchdog := time.Duration(30+5*len(scs)) * time.Second
+	env := append([]string{}, extraEnv...)
+	watchdog := time.Duration(60+10*len(scs)) * time.Second
 	if race {
 		exe = os.Getenv("VERIF_RACE_BIN")
-		lp := filepath.Join(dir, fmt.Sprintf("race-%d", n))
+		lp := filepath.Join(dir, fmt.Sprintf("race-%d-%d", n, round))
 		env = append(env, "GORACE=halt_on_error=0 log_path="+lp)
-		watchdog *= 4
+		watchdog *= 3
 	}
 	cr := common.RunChild(exe, "batch", dir, env, watchdog, spec, outp)
 	if race {
-		logs, _ := filepath.Glob(filepath.Join(dir, fmt.Sprintf("race-%d.*", n)))
+		logs, _ := filepath.Glob(filepath.Join(dir, fmt.Sprintf("race-%d-%d.*", n, round)))
 		raceLogs = logs
 	}
-	done := map[int]bool{}
-	ended := false
 	if f, err := os.Open(outp); err == nil {
 		rd := bufio.NewReaderSize(f, 1<<20)
 		dec := json.NewDecoder(rd)
@@ -334,25 +373,20 @@ func runBatch(dir string, n int, scs []Scenario, race bool) (res []scResult, chi
 				break
 			}
 			if l.Kind == "scenario" && l.Scenario != nil {
-				done[l.Scenario.ID] = true
 				res = append(res, scResult{sc: *l.Scenario, evs: l.Events, complete: l.Problem == "", problem: l.Problem, race: race})
 			}
 		}
 		f.Close()
 	}
-	for _, sc := range scs {
-		if !done[sc.ID] {
-			res = append(res, scResult{sc: sc, complete: false, problem: "child did not finish this scenario", race: race})
-		}
-	}
-	if race && cr.ExitCode == 66 && ended { // the race runtime's exit code when it reported races
+	if race && cr.ExitCode == 66 { // the race runtime's exit code when it reported races
 		cr.ExitCode = 0
 	}
-	if cr.TimedOut || cr.ExitCode != 0 || !ended {
-		childNote = fmt.Sprintf("batch %d (race=%v): child exit=%d watchdog=%v ended=%v; output tail: %s", n, race, cr.ExitCode, cr.TimedOut, ended, tailStr(cr.Output, 600))
+	if cr.TimedOut || cr.ExitCode != 0 {
+		childNote = fmt.Sprintf("batch %d.%d (race=%v): child exit=%d watchdog=%v ended=%v; output tail: %s", n, round, race, cr.ExitCode, cr.TimedOut, ended, tailStr(cr.Output, 600))
 	}
 	os.Remove(spec)
 	os.Remove(outp)
+	os.Remove(cr.OutPath)
 	return
 }
 
@@ -444,7 +478,7 @@ func main() {
 		return
 	}
 	rng := r.Rand("c19-scenarios")
-	nNormal := r.Pick(132, 1500)
+	nNormal := r.Pick(108, 1500)
 	nRace := r.Pick(12, 120)
 	if os.Getenv("VERIF_RACE_BIN") == "" {
 		nRace = 0
@@ -485,13 +519,19 @@ func main() {
 	var distinct common.Distinct
 	var samples common.SampleKeeper
 	samples.N = 4
-	evaluated, incomplete, blockingUnconfirmed := 0, 0, 0
+	evaluated, incomplete, blockingUnconfirmed, blockingExamined := 0, 0, 0, 0
 	familiesSeen := map[string]int{}
 	endingsSeen := map[string]int{}
 	regimes := map[string]int{}
 	raceSigs := map[string]int{}
 	raceReports := 0
 	violKinds := map[string]int{}
+
+	type pendingViol struct {
+		sr scResult
+		v  Viol
+	}
+	var pending []pendingViol
 
 	handle := func(sr scResult, dir string, nextBatchID *int) {
 		if !sr.complete {
@@ -505,34 +545,13 @@ func main() {
 		// timing-sensitive sub-verdict: confirm by re-running the same scenario in fresh children
 		var keep []Viol
 		for _, v := range out.Viols {
-			if v.Kind != "read-blocks" {
+			if v.Kind != "read-blocks" && v.Kind != "poll-gap" && v.Kind != "poll-hangs" {
 				keep = append(keep, v)
 				continue
 			}
-			confirmed := true
-			for k := 0; k < 2 && confirmed; k++ {
-				mu.Lock()
-				*nextBatchID++
-				id := *nextBatchID
-				mu.Unlock()
-				rr, _, _ := runBatch(dir, id, []Scenario{sr.sc}, sr.race)
-				confirmed = false
-				if len(rr) == 1 && rr[0].complete {
-					for _, v2 := range evalScenario(rr[0].sc, rr[0].evs).Viols {
-						if v2.Kind == "read-blocks" {
-							confirmed = true
-						}
-					}
-				}
-			}
-			if confirmed {
-				keep = append(keep, v)
-			} else {
-				mu.Lock()
-				blockingUnconfirmed++
-				mu.Unlock()
-				r.Note("scenario %d: a ReadValue spanned %v quarter ticks once but not when the scenario was re-run — scheduling noise, not reported", sr.sc.ID, v.Detail["quarter_ticks"])
-			}
+			mu.Lock()
+			pending = append(pending, pendingViol{sr: sr, v: v})
+			mu.Unlock()
 		}
 		for _, v := range keep {
 			mu.Lock()
@@ -542,6 +561,10 @@ func main() {
 		}
 		for _, s := range out.Inconclusive {
 			r.Inconclusive(s)
+		}
+		if dd := os.Getenv("C19_DEBUG_DIR"); dd != "" && len(out.Inconclusive) > 0 {
+			buf, _ := json.Marshal(witness{Scenario: sr.sc, Race: sr.race, Events: sr.evs})
+			_ = os.WriteFile(filepath.Join(dd, fmt.Sprintf("inconclusive-%d-%d.json", r.Seed, sr.sc.ID)), buf, 0o644)
 		}
 		mu.Lock()
 		defer mu.Unlock()
@@ -608,6 +631,57 @@ func main() {
 		}
 	})
 
+	// counted-time candidates are confirmed one at a time, after the parallel phase (less self-inflicted load):
+	// the re-runs only count when their own clocks pass the load guard; up to 5 attempts to get 2 that do
+	for n, pv := range pending {
+		if n >= 3 { // enough of these were examined in this run
+			break
+		}
+		blockingExamined++
+		sr, v := pv.sr, pv.v
+		reproduced, refuted := 0, 0
+		for k := 0; k < 5 && reproduced < 2 && refuted == 0; k++ {
+			nextID++
+			rr, _, _ := runBatch(dir, nextID, []Scenario{sr.sc}, sr.race)
+			if len(rr) != 1 || len(rr[0].evs) == 0 {
+				continue
+			}
+			o2 := evalScenario(rr[0].sc, rr[0].evs)
+			if o2.Stats.TimedEvaluated == 0 {
+				continue // too loaded to say anything
+			}
+			hit := false
+			for _, v2 := range o2.Viols {
+				if v2.Key == v.Key {
+					hit = true
+				}
+			}
+			undecided := false
+			for _, k2 := range o2.TimedUndecided {
+				if k2 == v.Key {
+					undecided = true
+				}
+			}
+			switch {
+			case hit:
+				reproduced++
+			case undecided: // stalls broke the tick runs: this re-run could not have shown it
+			default:
+				refuted++
+			}
+		}
+		switch {
+		case reproduced >= 2 && refuted == 0:
+			violKinds[v.Kind]++
+			r.Report(v.Key, v.Desc, witness{Scenario: sr.sc, Race: sr.race, Violation: v, Events: sr.evs})
+		case refuted > 0:
+			blockingUnconfirmed++
+			r.Note("scenario %d: %s (%v quarter ticks) once but not when the scenario was re-run — scheduling noise, not reported", sr.sc.ID, v.Key, v.Detail["quarter_ticks"])
+		default:
+			r.Inconclusive(fmt.Sprintf("scenario %d: candidate %s (%v quarter ticks) could not be confirmed or refuted: only %d of 5 re-runs had clocks that passed the load guard (machine too loaded)", sr.sc.ID, v.Key, v.Detail["quarter_ticks"], reproduced))
+		}
+	}
+
 	raceList := []string{}
 	for s, n := range raceSigs {
 		raceList = append(raceList, fmt.Sprintf("%s (x%d)", s, n))
@@ -617,6 +691,10 @@ func main() {
 		r.Note("data races reported by -race children (observations; they do not touch Monitor.states / SingleFailureDetector.state and do not decide C19): %s", strings.Join(raceList, "; "))
 	}
 
+	os.RemoveAll(dir) // Finish exits the process: deferred calls do not run
+	if total.ServePanics > 0 {
+		r.Note("observation (outside C19's statement): Monitor.ListenAndServe panicked with a nil dereference %d times when Monitor.Close ran concurrently with its accept loop (Close sets m.listener = nil, the loop then calls m.listener.Accept()); recovered by the harness", total.ServePanics)
+	}
 	r.Finish(common.Coverage{
 		Evaluations:        evaluated,
 		DistinctNontrivial: distinct.Len(),
@@ -641,7 +719,7 @@ func main() {
 		"Restatement: 'within a bounded number of polling intervals' is decided as an order statement over hook events: every poll that STARTS after the end state was recorded by the monitor (or after the monitor became unreachable) must leave the detector non-alive, and every ReadValue that can only have seen such polls must return TRUE. No wall-clock bound is used.",
 		"'Monitor unreachable' means: no byte can reach it — the harness proxy in front of it has closed its listener and every established connection (or black-holes all traffic), or the monitor is not listening yet, or it was closed before the detector was created (refused dial confirmed from outside). A Monitor whose Close() was called but whose established connections still answer is treated as REACHABLE-or-unknown: no completeness verdict is taken from it.",
 		"Accuracy verdicts only in configurations with a 2 s RPC timeout and no injected delay; a poll that times out there makes the scenario inconclusive. The statement's allowance 'from the first successful poll on' is encoded per alive+reachable interval: unsuccessful polls before the first successful one are tolerated, but 5 in a row inside one such interval are reported as 'does not settle'.",
-		"'Never delays by more than one polling interval' is counted in quarter-interval ticks of a harness ticker (only for pull intervals >= 8 ms): a violation needs >= 8 quarter ticks inside one ReadValue, more than 2 above the largest concurrent sentinel Sleep(pullInterval), and must reproduce in two re-runs of the scenario in fresh processes.",
+		"'Never delays by more than one polling interval' is counted in quarter-interval ticks of a harness ticker (only for pull intervals >= 10 ms); a span is the longest run of consecutive regular ticks inside it (ticks more than 2.5 quarters apart by the recorder's timestamps break a run: stalls and dropped ticks can only shorten a span). A read exceeds if it spans >= 8 quarter ticks and more than 2 above the largest concurrent sentinel Sleep(pullInterval); a violation needs >= 3 exceeding reads in one scenario (or at least half of the uninitialised-state reads) and must reproduce with the same key in two re-runs of the scenario in fresh processes (a re-run whose tick runs were broken by stalls counts as neither). The same counting decides 'the detector keeps polling' (no poll start during 6 intervals outside a poll) and 'a poll ends within its timeout' (timeout + 6 intervals).",
 		"Monitor, detectors, proxy and archetypes live in one OS process and talk over 127.0.0.1 TCP; crash of a whole OS process is represented by the proxy cut.",
 		"Schedules are whatever the Go scheduler and the generated pauses produced; orders are sampled, not exhausted.",
 	})
